@@ -39,6 +39,19 @@ def to_ds(spec):
     return svc.simple_ds(**spec)
 
 
+def to_file_ds(spec):
+    """The same identifier as the application often has it: a FileDataset, i.e. what dcmread() returns for a
+    query template or a stored record (preamble and file meta information attached).  It IS a Dataset."""
+    import pydicom
+    fm = pydicom.dataset.FileMetaDataset()
+    fm.MediaStorageSOPClassUID = svc.SC_STORAGE
+    fm.MediaStorageSOPInstanceUID = '1.2.3.4.5'
+    fm.TransferSyntaxUID = svc.EXPLICIT
+    fds = pydicom.dataset.FileDataset('template.dcm', to_ds(spec), file_meta=fm, preamble=b'\0' * 128)
+    fds.is_implicit_VR, fds.is_little_endian = False, True
+    return fds
+
+
 def scp_case(value, lazy=False, fail_after=None, reuse=False):
     """reuse: the handler does not build new data sets but fills in the query object it was handed (as the standard
     describes matching: the keys of the request, filled in) and yields that same object for every match."""
@@ -69,8 +82,8 @@ def scp_case(value, lazy=False, fail_after=None, reuse=False):
                         setattr(ds, kw, v)
                     yield ds, statuses.Status(code, dimsemessages.CFindRSPMessage)
                 return
-            for m, code in matches:
-                yield to_ds(m), statuses.Status(code, dimsemessages.CFindRSPMessage)
+            for k, (m, code) in enumerate(matches):
+                yield (to_file_ds(m) if (k + msg_id) % 3 == 0 else to_ds(m)), statuses.Status(code, dimsemessages.CFindRSPMessage)
             if fail_after is not None:
                 from pynetdicom2 import exceptions
                 raise exceptions.EventHandlingError('handler fails after %d matches' % len(matches))
@@ -166,7 +179,7 @@ def scu_case(value):
                 if early:
                     ae.add_scu(sopclass.verification_scu)
                 with ae.request_association(remote) as assoc:
-                    results = assoc.get_scu(sop)(to_ds(query), msg_id)
+                    results = assoc.get_scu(sop)(to_file_ds(query) if msg_id % 4 == 2 else to_ds(query), msg_id)
                     if early:
                         # the query is prepared, another operation is carried out on the association, and only then
                         # are the results iterated (one outstanding operation at a time, as DICOM requires)
@@ -281,7 +294,7 @@ def run(ctx):
                 '(odd-length values, long descriptions), 3 transfer syntaxes, maximum PDU lengths down to 32 bytes; '
                 'provider side through qr_find_scp / modality_work_list_scp (wire read by the reference codecs), user '
                 'side through qr_find_scu / modality_work_list_scu / the c_find() wrapper against a scripted peer with '
-                'final status success/failure/cancel, counting every receive() call; provider handler failing after k matches; provider handler filling in and yielding the query object itself; the caller editing a received match and sending it as the next query; a query prepared, a C-ECHO carried out, and only then the results iterated; '
+                'final status success/failure/cancel, counting every receive() call; provider handler failing after k matches; provider handler filling in and yielding the query object itself; the caller editing a received match and sending it as the next query; a query prepared, a C-ECHO carried out, and only then the results iterated; identifiers given as FileDataset objects (as read from files); '
                 'non-trivial = >=2 matches, mixed pending codes or a multi-fragment response')
     ctx.assumptions = ['matches carry only pending statuses (a non-pending status supplied by the handler is outside the statement)',
                        'loopback composition of both sides is exercised by C20/C15 style checks, not here']
